@@ -22,7 +22,7 @@ RULE = (
     "Non-trivial: >=2 types and (block orders differ or an operand went through a pytree round trip); distinct by "
     "(type set, orders, histories, layout)."
 )
-RULE += " Also: ONE jitted callable reused for both storage orders; operand representations float32 / NumPy blocks / int32 / float64 under x64; scalar representations."
+RULE += " Augmented assignment (+= -= *= /=) and != as further spellings; one multi-image holding blocks of different dtypes (int32 first, float32 with non-integer values). Also: ONE jitted callable reused for both storage orders; operand representations float32 / NumPy blocks / int32 / float64 under x64; scalar representations."
 ASSUMPTIONS = ["float32 arithmetic on integers below 2^24 is exact", "NumPy per-type evaluation as the oracle"]
 ANCHORS = [
     "ginjax.geometric.multi_image:MultiImage.__add__",
@@ -74,7 +74,7 @@ def setup(ctx):
     return {}
 
 
-REPS = ("float32", "float32", "numpy", "int32", "float64-x64")
+REPS = ("float32", "float32", "numpy", "int32", "float64-x64", "mixed")
 _CONV = None  # how a NumPy block is handed to the library in this case (jnp.asarray / the NumPy array itself)
 
 
@@ -93,6 +93,12 @@ def content(rng, D, lead, sp, offset, rep="float32"):
         vals = (TCODE[(k, p)] * 10000 + np.arange(n)) * offset[0] + offset[1]
         if rep == "float64-x64":
             vals = vals + 2.0**31 + 0.5  # not representable in float32: a silent down-cast loses the ids
+        if rep == "mixed":
+            # blocks of different dtypes in one multi-image (an int32 mask next to float32 fields with non-integer values);
+            # small ids so that the fractional part stays above the comparison tolerance. The narrow block comes first.
+            vals = (TCODE[(k, p)] * 1000 + np.arange(n)) * offset[0] + offset[1] + (0.0 if not out else 0.5)
+            out[(k, p)] = vals.reshape(shp).astype(np.int32 if not out else np.float32)
+            continue
         out[(k, p)] = vals.reshape(shp).astype({"int32": np.int32, "float64-x64": np.float64}.get(rep, np.float32))
     return out
 
@@ -239,7 +245,7 @@ def _run(case, ctx, rep):
     want_dtype = {"int32": "int32", "float64-x64": "float64"}.get(rep, "float32")
     for nm, mi in (("a", a), ("b", b)):
         bad = {t: str(v.dtype) for t, v in mi.items() if str(v.dtype) != want_dtype}
-        if bad and not viols and rep != "int32":  # integer payloads may legitimately become float32 (from_vector, concat)
+        if bad and not viols and rep not in ("int32", "mixed"):  # integer payloads may legitimately become float32 (from_vector, concat)
             viols.append(viol("construction-changed-dtype", f"operand {nm}: blocks {bad} after history {ha if nm == 'a' else hb}, put in as {want_dtype}"))
     if not viols:
         s = float(rng.integers(2, 6))
@@ -251,6 +257,21 @@ def _run(case, ctx, rep):
                 evals += 1
             except Exception as e:
                 viols.append(viol(f"arith-exception-{type(e).__name__}", f"{name} raised {type(e).__name__}: {str(e)[:200]}; orders {orders}; histories {ha} / {hb}"))
+        # other spellings of the same operations: augmented assignment (falls back to the binary operator unless the class
+        # defines an in-place form, which must then pair by type as well), `!=`
+        import operator
+
+        wants_ = {"iadd": {t: blocks_a[t] + blocks_b[t] for t in blocks_a}, "isub": {t: blocks_a[t] - blocks_b[t] for t in blocks_a},
+                  "imul": {t: blocks_a[t] * float(np.asarray(s)) for t in blocks_a}, "itruediv": {t: blocks_a[t] / float(np.asarray(s)) for t in blocks_a}}
+        for nm in ("iadd", "isub", "imul", "itruediv"):
+            try:
+                u = geom.MultiImage({t: jnp.asarray(np.asarray(v)) for t, v in a.items()}, D, torus)  # fresh object, a's storage order
+                r = getattr(operator, nm)(u, b if nm in ("iadd", "isub") else s)
+                evals += 1
+                if set(r.keys()) != set(blocks_a) or any(np.asarray(r[t]).shape != wants_[nm][t].shape or not np.allclose(np.asarray(r[t], dtype=np.float64), wants_[nm][t], rtol=1e-6, atol=0) for t in blocks_a):
+                    viols.append(viol("arith-augmented-assignment", f"`a {nm[1:]}= ...` differs from the per-type result; orders {orders}; histories {ha} / {hb}"))
+            except Exception as e:
+                viols.append(viol(f"arith-exception-{type(e).__name__}", f"{nm} raised {type(e).__name__}: {str(e)[:200]}; orders {orders}; histories {ha} / {hb}"))
         # the same operations traced under jit (keys sorted by jax inside the trace): results by type must agree
         try:
             # ONE jitted callable reused for all operands of this process (the jit cache is keyed by the pytree structure:
@@ -283,6 +304,8 @@ def _run(case, ctx, rep):
         # equality across histories: same content rebuilt through another history must compare equal
         try:
             a2, ha2, _ = build(rng, geom, jax, jnp, blocks_a, D, torus, n_lead)
+            if a != a2:
+                viols.append(viol("eq-mismatch", f"`!=` is True for equal content: orders {list(a.keys())} / {list(a2.keys())}"))
             if not (a == a2):
                 viols.append(viol("eq-positional" if list(a.keys()) != list(a2.keys()) else "eq-mismatch", f"equal content compares unequal: orders {list(a.keys())} / {list(a2.keys())} histories {ha} / {ha2}"))
             # one element differs in one type -> not equal
